@@ -964,7 +964,8 @@ class PrimMixin:
                 if k2 != h.kind:
                     i = z3.Int("i!c")
                     t = z3.Lambda([i], self.coerce_term(t[i], h.kind, k2))
-                if copyflag is False and k2 == h.kind and not h.islist:
+                if copyflag in (False, None) and k2 == h.kind and not h.islist:
+                    # copy=False / copy=None (numpy 2: copy only if needed): the argument itself may come back
                     return v
                 org = None
                 if k2 == h.kind:
